@@ -79,9 +79,9 @@ func (txn *Txn) rangeWrite(fn func(commitID uint64, chunk commit.Chunk, fill bit
 	lock := txn.owner.slock
 	txn.dirty.Range(func(x uint32) {
 		chunk := commit.Chunk(x)
-		commitID := commit.Next()
 		verifPoint("commit.beforeLatch", txn.owner, uint32(chunk))
 		lock.Lock(uint(chunk))
+		commitID := commit.Next() // must be drawn under the latch, IDs order commits of a chunk
 
 		// Compute the fill and set the last commit ID
 		txn.owner.lock.RLock()
